@@ -75,6 +75,39 @@ def callBgraph (c : Call) (st : St) : List String :=
       toString e.l0 ++ " " ++ toString e.l1 ++ " " ++ sgn e.p0 ++ " " ++ sgn e.p1 ++ " " ++ fHex e.pe ++ " " ++ fHex e.pl))),
     line "bg_tree" (joinNats bg.tree) ]
 
+/-- `mstraw nb ne (l0 l1 w)*`: Kruskal (the union-find transcription `Fs.UF.kruskalUF`, on the
+permutation `std::sort` produced, echoed as `I rawperm`) and Boruvka on a SYNTHETIC basin graph;
+certificates (`certOk`, soundness `Fs.C15.certOk_sound`) on the model's trees and on the trees the
+implementation reported (`I impl_raw_k`, `I impl_raw_b`) -/
+def callMstRaw (c : Call) : List String :=
+  let nb := natOf (c.toks.getD 1 "0")
+  let ne := natOf (c.toks.getD 2 "0")
+  let rec parseE : Nat → List String → List (Fs.Mst.BEdge F)
+    | 0, _ => []
+    | k + 1, a :: b :: w :: rest =>
+      { l0 := natOf a, l1 := natOf b, p0 := 0, p1 := 0, pe := hexF w, pl := 1.0 } :: parseE k rest
+    | _, _ => []
+  let edges := (parseE ne (c.toks.drop 3)).toArray
+  let perm := ((findInp c "rawperm").getD []).map natOf
+  let permOk := Fs.Mst.validPerm S edges perm
+  let tk := Fs.UF.kruskalUF nb edges perm
+  let tb := Fs.Mst.boruvka S nb edges Fs.Gen.maxLowDegree
+  let b01 (b : Bool) : String := if b then "1" else "0"
+  let certI : List String :=
+    (match findInp c "impl_raw_k" with
+      | some tv => [line "cert_raw_impl_k" (b01 (Fs.Mst.certOk S nb edges (tv.map natOf)))]
+      | none => []) ++
+    (match findInp c "impl_raw_b" with
+      | some tv => [line "cert_raw_impl_b" (b01 (Fs.Mst.certOk S nb edges (tv.map natOf)))]
+      | none => [])
+  certI ++
+  [ line "cert_raw_perm" (b01 permOk),
+    line "cert_raw_k" (b01 (Fs.Mst.certOk S nb edges tk)),
+    line "cert_raw_b" (b01 (Fs.Mst.certOk S nb edges tb)),
+    line "raw_k" (joinNats tk),
+    line "raw_b" (joinNats tb),
+    line "raw_b2" (joinNats tb) ]
+
 /-- `spl`: the harness echoes every parameter in `I spl kind K… m n tol dt area… elev…` -/
 def callSpl (c : Call) (st : St) : List String :=
   let n := st.topo.n
@@ -184,6 +217,7 @@ def runFlowOk (st : St) (c : Call) : St × List String :=
     let b := basins st.topo.n st.g st.mask isBase
     (st, [line "outlets" (joinNats b.outlets), line "pits" (joinNats b.pits)])
   | "bgraph" :: _ => (st, callBgraph c st)
+  | "mstraw" :: _ => (st, callMstRaw c)
   | "spl" :: _ => (st, callSpl c st)
   | "kernel" :: _ => (st, callKernel c st)
   | "snapcall" :: nm :: what :: rest =>
